@@ -426,7 +426,7 @@ PROPS["C12"] = {
                   "NewRecord / field writes / Release - any number of outputs, any choice sync.Pool makes, records released fewer times than they have "
                   "outputs - every pooled record has all fields empty, raw length 0, zero timestamp, count 0, no backing buffer), "
                   "C12_new_record_is_clean (the record NewRecord hands out carries nothing of an earlier one and has one reference per output), "
-                  "C12_live_counts_positive (Release cannot reach the negative-count panic on a record that is handed out); C12_backing_buffers_disjoint (whichever pooled record and pooled buffer the pools hand out, no backing buffer is referenced by two handed-out records and none sits in the buffer pool while a handed-out record references it: the bytes a record's field values point into are never another live record's); the one flag Release leaves "
+                  "C12_live_counts_positive (Release cannot reach the negative-count panic on a record that is handed out); C12_one_release_per_output_recycles (after NewRecord the `outputs` releases of a record that passes are all enabled and the last one recycles it; a dropped record is released once; the inventory of Release call sites is a fact), C12_backing_buffers_disjoint (whichever pooled record and pooled buffer the pools hand out, no backing buffer is referenced by two handed-out records and none sits in the buffer pool while a handed-out record references it: the bytes a record's field values point into are never another live record's); the one flag Release leaves "
                   "behind, Unescaped, is assigned by the parser for every record (fact); three whole-body facts. "
                   "Tie: the pool component drives the real LogAllocator (which pooled record sync.Pool returned is observed by pointer identity and told "
                   "to the model) and compares every observation;  long-lived versus fresh real pipelines and the composed model, record by record; pooled-record layouts, "
